@@ -22,6 +22,7 @@ type crashHist struct {
 	stmts  []*proto.Stmt
 	flush  []bool              // flush after statement i
 	noise  map[int]*proto.Stmt // a statement that has to FAIL, issued right after statement i
+	noiseQ map[int]string      // the same, given as SQL text (database statements)
 	reopen []bool              // clean close + reopen after statement i
 	class  string              // never always mixed timer
 	timer  bool                // the real 100 ms flush timer runs (no explicit flushes needed)
@@ -118,8 +119,15 @@ func buildCrashHist(c *core.Ctx, idx int) *crashHist {
 	ch := &crashHist{idx: idx, name: "random"}
 	n := r.Range(10, 60)
 	ch.noise = map[int]*proto.Stmt{}
+	ch.noiseQ = map[int]string{}
 	for i := 0; i < n; i++ {
 		ch.stmts = append(ch.stmts, h.Next())
+		if r.Chance(1, 25) {
+			// CREATE DATABASE for the database the history runs in, or USE of
+			// one that does not exist: refused, and nothing may change
+			ch.noiseQ[i] = []string{"CREATE DATABASE d1", "CREATE DATABASE D1", "create database d1", "USE nosuchdb", "CREATE DATABASE d1"}[r.Intn(5)]
+			continue
+		}
 		if r.Chance(1, 8) {
 			// a statement that is refused, between two that are not: it must
 			// leave nothing behind - also nothing that only shows when a later
@@ -171,7 +179,7 @@ func (ch *crashHist) schedule(r *core.Rand, class int) {
 
 func checkC02(c *core.Ctx) []core.Floor {
 	c.Level = "fault_enumeration"
-	c.Rule = "seeded DDL/DML histories (10-60 statements, 1-3 tables; one statement in eight is followed by a statement that is refused - over-long names, duplicate table, type / range / size / column-count errors, repeated columns - and must leave nothing behind, also nothing that only shows when later statements are rebuilt from the log) plus scenario templates; four histories in five have a second database next to theirs, created before or after it and sorting before or after it; EVERY statement boundary of every history is a crash point (image of the data directory with the timer off = state a kill -9 leaves); flush schedule per history: never / after every statement / random subset + clean reopen / the REAL 100 ms timer running (one history in eight: the image is taken right after the acknowledgement, never while a flush is writing, with pauses of more than a tick after some statements). Each image is recovered in a fresh process and SELECT * of every table + catalog is compared with the model after that statement; recovery is run a second time; then 3-8 further statements (with up to 2 more crash/recover cycles) are checked against the model incl. row-id rules. A sample is cross-validated with a real SIGKILL. Distinct = image (history, boundary, schedule); non-trivial = recovery actually replayed at least one log record."
+	c.Rule = "seeded DDL/DML histories (10-60 statements, 1-3 tables; one statement in eight is followed by a statement that is refused - over-long names, duplicate table, type / range / size / column-count errors, repeated columns, CREATE DATABASE for the database in use, USE of a missing database - and must leave nothing behind, also nothing that only shows when later statements are rebuilt from the log) plus scenario templates; four histories in five have a second database next to theirs, created before or after it and sorting before or after it; EVERY statement boundary of every history is a crash point (image of the data directory with the timer off = state a kill -9 leaves); flush schedule per history: never / after every statement / random subset + clean reopen / the REAL 100 ms timer running (one history in eight: the image is taken right after the acknowledgement, never while a flush is writing, with pauses of more than a tick after some statements). Each image is recovered in a fresh process and SELECT * of every table + catalog is compared with the model after that statement; recovery is run a second time; then 3-8 further statements (with up to 2 more crash/recover cycles) are checked against the model incl. row-id rules. A sample is cross-validated with a real SIGKILL. Distinct = image (history, boundary, schedule); non-trivial = recovery actually replayed at least one log record."
 	c.Assume = []string{"process-death crash model: completed write(2) calls survive, as the property states", "image = copy of data/ taken between statements with the flush timer off; cross-validated against real SIGKILL on a sample"}
 	drv := mustDriver(c, false)
 	nRandom, kill := 300, 20
@@ -243,6 +251,9 @@ func crashPhase1(c *core.Ctx, drv, dir string, ch *crashHist, withImages bool, k
 		add(proto.Op{K: "stmt", Stmt: st}, meta{kind: "stmt", i: i})
 		if ns := ch.noise[i]; ns != nil {
 			add(proto.Op{K: "stmt", Stmt: ns}, meta{kind: "noise", i: i})
+		}
+		if q := ch.noiseQ[i]; q != "" {
+			add(proto.Op{K: "sql", SQL: proto.Text(q)}, meta{kind: "noise", i: i})
 		}
 		if ch.flush[i] {
 			add(proto.Op{K: "flush"}, meta{kind: "other"})
@@ -330,6 +341,11 @@ func runCrashHist(c *core.Ctx, drv string, ch *crashHist, killEvery int) {
 		for k, ns := range ch.noise {
 			if k <= i {
 				refused[fmt.Sprint(k)] = clip(model.RenderStmt(ns, model.Plain), 600)
+			}
+		}
+		for k, q := range ch.noiseQ {
+			if k <= i {
+				refused[fmt.Sprint(k)] = q
 			}
 		}
 		j := &crashJob{
